@@ -36,7 +36,7 @@ REQUIRED_OBS = {"fault_cases": 60, "failures_reported": 20, "successes_validated
 PF_CASES = ["ieee14/ieee14_full.xlsx", "kundur/kundur_full.xlsx", "matpower/case118.m", "5bus/pjm5bus.xlsx", "wecc/wecc_gencls.xlsx"]
 PF_FAULTS = ["load_x1.5", "load_x3", "load_x6", "load_x12", "load_x30", "no_slack", "slack_cut_off", "x_zero", "x_negative", "x_nan", "x_inf", "load_nan",
              "max_iter_1", "two_slacks_one_island", "all_lines_off", "v0_zero"]
-TDS_FAULTS = ["huge_step_noshrink", "long_fault", "unstable_gain", "failed_init_gamma", "max_iter_1", "nan_state", "tf_before_t0", "failed_init_stock"]
+TDS_FAULTS = ["huge_step_noshrink", "long_fault", "loss_of_synchronism", "unstable_gain", "failed_init_gamma", "max_iter_1", "nan_state", "tf_before_t0", "failed_init_stock"]
 FILE_FAULTS = ["missing", "truncated_json", "garbled_json", "truncated_xlsx", "truncated_raw", "garbled_raw", "truncated_m", "empty", "garbled_dyr",
                "binary_as_raw"]
 
@@ -58,7 +58,8 @@ def cases(tier, seed):
             out.append(dict(id="tds:%s:%s" % (c, f), kind="tds", case=c, fault=f))
     for f in FILE_FAULTS:
         out.append(dict(id="file:" + f, kind="file", fault=f))
-    for s in ("tds_without_pf", "eig_without_pf", "tds_after_failed_pf", "eig_after_failed_pf", "eig_after_failed_init", "pf_ok_then_tds_ok"):
+    for s in ("tds_without_pf", "eig_without_pf", "tds_after_failed_pf", "eig_after_failed_pf", "eig_after_failed_init", "pf_ok_then_tds_ok", "pf_ok_then_pf_fails:load", "pf_ok_then_pf_fails:x_nan",
+              "pf_ok_then_pf_fails:max_iter", "pf_ok_then_pf_fails_then_tds"):
         out.append(dict(id="seq:" + s, kind="seq", seq=s))
     for c in ("cli_ok", "cli_pf_diverges", "cli_missing_file", "cli_tds_fails", "cli_corrupt", "cli_failed_init"):
         out.append(dict(id=c, kind="cli", which=c, timeout=900))
@@ -227,6 +228,15 @@ def run_tds(spec, res):
         ss = au.load(case, setup=False, config_path=rc)
         if f == "long_fault":
             ss.add("Fault", dict(bus=ss.Bus.idx.v[0], tf=0.2, tc=1.6, xf=1e-4))
+        elif f == "loss_of_synchronism":
+            # a long close-in fault in the middle of the network, then a few seconds for the machines to fall apart
+            for k in range(ss.Fault.n):
+                ss.Fault.u.v[k] = 0
+            for k in range(ss.Toggle.n):
+                ss.Toggle.u.v[k] = 0
+            mid = ss.Bus.idx.v[min(ss.Bus.n - 1, 6)]
+            ss.add("Fault", dict(bus=mid, tf=0.5, tc=float(rng.choice([1.1, 1.3])), xf=1e-4))
+            ss.TDS.config.tf = 6.0
         elif f == "unstable_gain":
             for mname in ("EXDC2", "ESST3A", "EXST1", "IEEEX1"):
                 m = getattr(ss, mname)
@@ -262,6 +272,18 @@ def run_tds(spec, res):
             return
         finite = bool(np.all(np.isfinite(ss.dae.x)) and np.all(np.isfinite(ss.dae.y)))
         reached = float(ss.dae.t) == float(ss.TDS.config.tf)
+        # own evaluation of the configured stability criterion on the stored trajectory
+        tripped_at = None
+        if int(ss.TDS.config.criteria) and len(ss.SynGen.delta_addr) >= 2:
+            X = np.array(ss.dae.ts.x)
+            if X.ndim == 2 and X.shape[0]:
+                dl = X[:, np.array(ss.SynGen.delta_addr, dtype=int)]
+                spread = dl.max(axis=1) - dl.min(axis=1)
+                res.maxobs("max_rotor_angle_spread_deg", float(np.degrees(np.nanmax(spread))))
+                over = np.where(spread >= np.deg2rad(float(ss.TDS.config.ddelta_limit)))[0]
+                if len(over):
+                    tripped_at = float(np.array(ss.dae.ts.t)[over[0]])
+                    res.count("runs_with_criterion_exceeded")
         init_ok = ss.TDS.test_ok is not False
         # independent residual of the initial point is not needed here: test_ok is cross-checked under C05
         valid = finite and reached and init_ok
@@ -272,6 +294,10 @@ def run_tds(spec, res):
                 res.violate("success_with_nan", "%s: TDS.run() returned True with non-finite states" % tag, fault=f)
             elif not reached:
                 res.violate("success_before_tf", "%s: TDS.run() returned True at t=%r, tf=%r" % (tag, float(ss.dae.t), float(ss.TDS.config.tf)), fault=f)
+            elif tripped_at is not None and tripped_at < float(ss.dae.t):
+                res.violate("success_with_criterion_tripped", "%s: the rotor-angle spread exceeded ddelta_limit=%g deg at t=%.4f (criteria=1), the "
+                            "simulation went on to t=%.4f and TDS.run() returned True" % (tag, float(ss.TDS.config.ddelta_limit), tripped_at,
+                                                                                          float(ss.dae.t)), fault=f)
             elif not init_ok:
                 res.violate("tds_success_after_failed_init", "%s: initialisation reported failure (test_ok False, exit_code %d) and TDS.run() still "
                             "returned True" % (tag, ss.exit_code), fault=f, exit_code=int(ss.exit_code))
@@ -396,6 +422,36 @@ def run_seq(spec, res):
                 res.inconc("power flow unexpectedly converged")
                 return
             refused(getattr(ss, "TDS" if s.startswith("tds") else "EIG").run(), s)
+        elif s.startswith("pf_ok_then_pf_fails"):
+            # the verdict of a run must be its own: an earlier converged run on the same System proves nothing
+            if not ss.PFlow.run():
+                res.inconc("first power flow failed")
+                return
+            how = s.split(":")[1] if ":" in s else "load"
+            if how == "load":
+                ss.PQ.alter("p0", ss.PQ.idx.v, ss.PQ.p0.vin * 40)
+            elif how == "x_nan":
+                ss.Line.alter("x", ss.Line.idx.v[2], float("nan"))
+            else:
+                ss.PQ.alter("p0", ss.PQ.idx.v, ss.PQ.p0.vin * 1.3)
+                ss.PFlow.config.max_iter = 1
+            code0 = int(ss.exit_code)
+            flag = bool(ss.PFlow.run())
+            valid, why = pf_verdict(ss)
+            res.count("repeated_power_flows")
+            if flag and valid is False:
+                res.violate("success_with_invalid_state", "sequence %s: the second PFlow.run() returned True, its state is invalid (%s; last mismatch %.3g)" % (
+                    s, why, float(ss.PFlow.mis[-1]) if len(ss.PFlow.mis) else float("nan")), seq=s)
+            elif not flag:
+                res.count("failures_reported")
+                if int(ss.exit_code) == code0:
+                    res.violate("failure_exit_code_zero", "sequence %s: the second PFlow.run() returned False but exit_code stayed %d" % (s, code0))
+                if bool(ss.PFlow.converged):
+                    res.violate("converged_flag_stale", "sequence %s: PFlow.run() returned False but PFlow.converged is still True" % s)
+            else:
+                res.count("successes_validated")
+            if s.endswith("then_tds") and valid is False:
+                refused(ss.TDS.run(), "TDS.run after a failed second power flow")
         elif s == "eig_after_failed_init":
             ss.PFlow.run()
             ss.GENROU.gammap.v[:] = 0.5
